@@ -698,7 +698,7 @@ def binding(ctx):
                         return True, len(cs_)
                     ok, ncs = passed_scope(holder, pi)
                     how = 'parameter %d of %s; its %d callers all pass Module::scope() (possibly through their own parameter)' % (pi, short(holder.id), ncs)
-            ctx.ob(['C11', 'C19'], 'R-EXPR', 'C11-D1|scope-of|%s' % cid(g.id), ok, 'the scope handed to the resolver is the referring module\'s own scope(): %s' % how, loc(c['span']))
+            ctx.ob(['C11', 'C19', 'C10'], 'R-EXPR', 'C11-D1|scope-of|%s' % cid(g.id), ok, 'the scope handed to the resolver is the referring module\'s own scope(): %s' % how, loc(c['span']))
     # the module whose scope is used is the module that owns the item: get_module_for_path(resolvee_path)
     gm = [f for f in P.fns.values() if f.id.endswith('SemanticState::get_module_for_path')]
     okm = False
